@@ -1,4 +1,5 @@
 import WebpVerif.Spec.Prefix
+import WebpVerif.Spec.Lossless
 import WebpVerif.Model.Util
 namespace DrvHuf
 open Util Prefix
@@ -18,6 +19,15 @@ def decodeMany (ls : List Nat) (la : Array Nat) (tab : Array (Option Nat)) (sing
       | some (s, rest) => decodeMany ls la tab single idx n rest (s :: acc)
       | none => (acc.reverse, false)
 
+/-- the executable specification decoder's own symbol reader (`VP8L.readSymbol`, used by the
+    whole-stream correspondences) on the same input -/
+def decodeManySpec (c : VP8L.Code) : Nat → VP8L.Bits → List Nat → List Nat × Bool
+  | 0, _, acc => (acc.reverse, true)
+  | n + 1, b, acc =>
+    match VP8L.readSymbol c b with
+    | some (s, b') => decodeManySpec c n b' (s :: acc)
+    | none => (acc.reverse, false)
+
 /-- `hufdec n lengths hexbytes`: the specification's symbol decoder (`Prefix.decodeSymbol`, with
     the canonical code words computed once) on a byte string -/
 def handle (args : List String) : Option String :=
@@ -25,9 +35,14 @@ def handle (args : List String) : Option String :=
   | ["hufdec", n, lengths, hex] => do
     let n ← n.toNat?; let ls ← parseNats lengths
     let bytes ← if hex == "-" then some #[] else parseHex hex
-    if !validLengths ls then some "invalid" else
+    if !validLengths ls then some (if VP8L.Code.valid ls.toArray then "SPEC-MISMATCH validity" else "invalid") else
     let single := (ls.filter (· ≠ 0)).length = 1
     let (syms, ok) := decodeMany ls ls.toArray (codeTable ls) single (ls.findIdx (· ≠ 0)) n (bitsOf bytes) []
+    -- cross-check inside Lean: the proof-friendly decoder and the executable specification agree
+    let (syms2, ok2) := decodeManySpec ls.toArray n { data := bytes, pos := 0 } []
+    if VP8L.Code.valid ls.toArray ≠ true ∨ syms2 ≠ syms ∨ ok2 ≠ ok then
+      some (s!"SPEC-MISMATCH prefix={joinNats syms}/{ok} lossless={joinNats syms2}/{ok2}")
+    else
     some (s!"syms={joinNats syms} end={if ok then "ok" else "eof"}")
   | _ => none
 
